@@ -4,3 +4,21 @@ open Wire
 
 let table : (string, sexp -> string) Hashtbl.t = Hashtbl.create 64
 let register name f = Hashtbl.replace table name f
+
+(* C03: models of the label passes and the closedness checker *)
+let () =
+  register "passes" (function
+    | L [ _; rs ] ->
+        let rs = as_pops rs in
+        let st = strip rs in
+        let fin, t = finalize st in
+        let res = match remove_all t fin with
+          | Ok p -> "{\"ok\":true,\"ops\":" ^ jprogram p ^ ",\"closed\":" ^ (if closed_b p then "true" else "false") ^ "}"
+          | Err m -> "{\"ok\":false,\"msg\":" ^ jname m ^ "}" in
+        "{\"r\":\"ok\",\"strip\":" ^ jpops st ^ ",\"fin\":" ^ jpops fin ^ ",\"table\":"
+        ^ jlist (fun (l, z) -> "[" ^ jnat l ^ "," ^ string_of_z z ^ "]") t ^ ",\"ordered\":"
+        ^ (if ordered rs then "true" else "false") ^ ",\"remove\":" ^ res ^ "}"
+    | _ -> raise (Bad "passes"));
+  register "closed" (function
+    | L [ _; p ] -> if closed_b (as_program p) then "{\"r\":\"ok\",\"closed\":true}" else "{\"r\":\"ok\",\"closed\":false}"
+    | _ -> raise (Bad "closed"))
